@@ -43,6 +43,9 @@ package main
 // (d) the reply to the CLOSE request itself (c12_closereply.go): a failure status, a cut connection, a handler object
 //     whose Close() fails - the File is closed all the same: every method afterwards answers os.ErrClosed, one CLOSE
 //     was sent, nothing naming the handle follows.
+// (f) a File method FAILS (refused with a status code, answered with a malformed reply, the connection cut, or failing by
+//     itself), then every other method is called, then Close (c12_afterfail.go): the failed call leaves the offset where
+//     an os.File's would be, the File stays open and usable, Close returns and sends its one CLOSE.
 // Model: every sequence is also evaluated by the Lean driver op xfer.seq (when present).
 
 import (
@@ -148,6 +151,8 @@ type xfSeqCase struct {
 	Race    *xfRace     `json:"race,omitempty"`           // a race trial instead of a sequence
 	Pair    *xfPairRace `json:"pair,omitempty"`           // two calls leaving a barrier together, many times (c12_pairs.go)
 	Stall   *xfStall    `json:"stall,omitempty"`          // a transfer whose source/sink stalls, Close, then it goes on (c12_stall.go)
+	// a File method fails, then every other method is called, then Close (c12_afterfail.go)
+	After *xfAfterFail `json:"after_fail,omitempty"`
 	// Open: the mode the File is opened in ("" = rdwr; see xfOpenModeList). For the modes that empty the file file_len
 	// is the size after the open (0) and pre_open_len what the name held before.
 	Open   string `json:"open,omitempty"`
@@ -221,6 +226,9 @@ func (sc xfSeqCase) Text() string {
 	}
 	if sc.Stall != nil {
 		fmt.Fprintf(&sb, " stall %s seed%d", sc.Stall.text(), sc.Seed)
+	}
+	if sc.After != nil {
+		fmt.Fprintf(&sb, " after-fail %s", sc.After.text())
 	}
 	sb.WriteByte(':')
 	for _, o := range sc.Ops {
@@ -1915,6 +1923,7 @@ func checkC12(c *lib.Ctx) {
 	r.Rule = "(a) WriteTo offset sweep: file sizes 0..3*mp*min(conc,3)+2 x start offsets {0,1,mp,size-1,size,size+1} x UseConcurrentReads x UseFstat x (mp,conc) on the scripted peer; (b) PRNG sequences (quick ~12, thorough ~40 calls + Close + 4..18 calls after Close) of Read/ReadAt/Write/WriteAt/ReadFrom(6 source kinds)/ReadFromWithConcurrency/WriteTo/Seek(whence 0,1,2 and invalid 5,7,-1; negative targets; one in seven with an offset at the edges of int64, followed by a Seek back)/Stat/Truncate on os-backed server, request server and scripted peer (in order and permuted replies); in every second peer sequence a quarter of the read/write calls have 1-2 PRNG-chosen chunks answered with a status of code 4/3/1(SSH_FX_EOF)/8/2/255, in every second request-server sequence the handler refuses writes beyond a PRNG quota: there the reference is offset-before + the intact prefix the server side recorded as stored (ReadAt/WriteAt: unchanged) x client options (quick: every (mp,conc) pair with rotating booleans, thorough: full product), mirrored on an *os.File; (b') per server kind and option set 7 (thorough 42) written-out sequences around a disturbed NAME with the handle open (op nm: rename away / remove / rotate / replace by a shorter or longer file / directory / symlink / dangling link, a second different one later; file sizes {0,1,mp,mp+1,2mp,3mp+2}; after each: Seek(x, io.SeekEnd) for x in {0,-1,-size,-size-1 (negative result: rejected without moving),+mp+1}, append, Read, Stat, WriteTo, Truncate, ReadFrom, ReadAt/WriteAt, Close), and every third PRNG sequence draws nm steps (each followed by 0-2 end-relative seeks) among its calls: real renames/removals on the os-backed server, differing STAT/LSTAT(path) vs FSTAT(handle) answers on the request server and the scripted peer, the same done to the os.File twin's name; every Seek's requests are read off the wire (none, or exactly one FSTAT on the handle for io.SeekEnd); (b'') per option set 6 (thorough: all 96) written-out chains of offset-relative calls on ONE handle: Seek to a non-zero start, a transfer variant {ReadFromWithConcurrency(0,1,3), ReadFrom(Len/Size/Stat/LimitedReader: concurrent when UseConcurrentWrites and more than one packet; opaque: sequential), Write, WriteTo, Read} of 2-4 packets, a follower {Write, empty Write+Write, ReadFrom, ReadFromWithConcurrency, Read, WriteTo, Seek(0/1, io.SeekCurrent)}, the transfer variant again, the follower again, Seek(0, io.SeekCurrent), a third transfer, Write, Stat, Close: offset, bytes and content after every call against the os.File twin; x open mode of the File {O_RDWR, +O_CREATE, +O_APPEND, +O_TRUNC, Client.Create(), O_CREATE|O_TRUNC, O_CREATE|O_EXCL on a new name} rotating over chains and PRNG sequences (twin opened alike; O_APPEND is a no-op for the servers, so the twin is opened without it) x servers {os, rs, os+allocator, rs+allocator+max-tx 65536, os+max-tx 65536, os+allocator+max-tx 65536 (these three also with client packet size 40000), request server without sftp.OpenFileWriter (reads through the Filewrite handle must fail with the failure status, deliver nothing and leave the offset alone; writes, seeks, Stat, Truncate go on), client packet size 40000 > default max payload with concurrent reads off}; (b3) client packet size ABOVE what the server returns per READ, a chunk taking three or more READs (each asking for the rest at chunk offset + bytes so far): MaxPacketUnchecked(2*cap+1, 3*cap, 100000, 262000) against {os, rs} x {allocator off, on} with the default max payload (cap 32768) and with max-tx 65536 (quick: per server kind one size with concurrent reads off and one with them on, rotating with the seed so that the default-payload servers together see all four sizes either way; thorough: all), and packet sizes 3,4,7 (32768) against the scripted peer whose DATA replies carry at most 1,2,3 (10000) bytes x MaxConcurrentRequestsPerFile rotating; with concurrent reads OFF these configurations get all the generators above (chains, name sequences, PRNG sequences with lengths/offsets also aimed at cap, cap+1, 2cap, 2cap+1, 3cap+1, mp+2cap+1) plus xfGenCapSeq; with concurrent reads ON only xfGenCapSeq, which keeps to the refilling read paths (Read/ReadAt of at most one packet; WriteTo after the file was truncated to at most one packet = sequential after STAT). xfGenCapSeq: 6-13 (small packets: 6-17) calls of Read x4/ReadAt x3/WriteTo x2/Seek x2/Write/WriteAt/ReadFrom/Truncate/Stat + Close + calls after Close; read lengths from {1,cap-1,cap,cap+1,2cap-1,2cap,2cap+1,3cap,3cap+1,mp-1,mp} and (concurrent reads off) {mp+1,mp+cap+1,mp+2cap+1,2mp,2mp+1,2mp+2cap+1,3mp+1}, a fifth uniform; offsets from {0,1,cap-1,cap,cap+1,2cap+1,mp,mp+1,size-1,size,size+1,size-2cap-1,size-2cap,size-3cap-1,size-mp,current, and such that the read ends at / one before / one beyond end of file or its 2nd/3rd READ meets it}; file sizes {2cap+1,3cap,3cap+1,mp-1,mp,mp+1,mp+2cap+1,2mp+1,2mp+2cap+2,3mp+2}; 10 such sequences per big-packet job, 24 per small-packet job (thorough x4); the histogram (above-cap|…|data-READs-per-chunk) says how many READs the fullest chunk of each read call took; (b4) per server kind and option set 2 (thorough 8) written-out sequences of Seeks at the edges of int64 (c12_seekedge.go): the offset is made non-zero by a Read, a Write, a Seek or Read+Seek on a file of {1,2,mp,mp+1,2mp+1,3mp+2} bytes, then for whence start, current, end every offset of {MaxInt64, MaxInt64-1, MinInt64, MinInt64+1, +-2^62, +-2^32, 2^32-1, 2^31, MaxInt64-base, MaxInt64-base+-1, -base, -base+-1, MaxInt64/2(+1), MinInt64/2} (base = 0 / current offset / size); after a seek that was taken far out, current-relative steps to and across MaxInt64 (+1, MaxInt64-offset, +1; MaxInt64; MinInt64, -offset-1), then back to a small non-zero offset by one of three routes; finally Read, Write, Close, Seeks after Close. Reference: the os.File twin where its file system takes the target, else (and while the File stands at such a position) the arithmetic itself: target = base + offset over the integers must be taken iff it is a non-negative int64, else refused with os.ErrInvalid without moving (Seek(0, io.SeekCurrent) asked after every call); (c) Close raced by 2 closers against 3..8 goroutines of ReadAt/WriteAt/Stat/Truncate on the scripted peer with the raw request stream parsed (c') two calls on ONE fresh File leaving a spin barrier at the same moment (in most attempts of the pairs other than Close||Close one side starts 40-5000 atomic increments late, either side), 150 attempts per job (Close||Close: 2000; 32 KiB packets: a quarter), on the scripted peer which counts the requests per handle: Close||Close x 6 option sets, Close||{Read, Write, Seek(start), Seek(end), Stat, ReadAt, WriteAt, Truncate, WriteTo, ReadFrom} and Seek||Read, Seek||Write, Seek||Seek, Read||Read, Write||Write, Read||Write x 2 option sets (thorough x4), lengths {1, mp, mp+1, 2mp+1} on a file of 3mp+2 bytes: exactly one CLOSE request and no request with the closed handle after it, {nil, os.ErrClosed} for two Closes, os.ErrClosed or the call's own result beside a Close, the results + final offset + content of one of the two orders for two offset-moving calls, os.ErrClosed from every method afterwards; non-trivial = a sequence that moves the offset through at least two different methods; distinct by the whole case text"
 	r.Rule += "; (b5) the request server over the package's OWN example backend sftp.InMemHandler() (xfer_inmem.go) gets the chains, the seek-edge sequences and the PRNG sequences too (no name disturbances: its names are its own; 32 KiB packets with at most 3 requests per file); (b6) per server kind and option set 2 (thorough 6) HISTORIES of one file (xfer_hist.go: data up to hi, shrink by Truncate / Close + open again with O_TRUNC / Create() / the open of the sequence itself, a sparse write beyond the new end by WriteAt / Seek+Write / Seek+ReadFrom / Seek+ReadFromWithConcurrency, everything read back; op ro = Close + open the same name again, on the twin alike: exactly one CLOSE per handle); (d) the reply to the CLOSE request itself (c12_closereply.go), 2 (thorough 12) sequences per scripted-peer and request-server job: after 0-3 calls that leave the offset non-zero the CLOSE is answered with a failure status of code {4,3,2,256,5,6,7,8,255,1,2^32-1,257} (scripted peer, 4 of 5), the connection is cut instead of an answer (scripted peer, 1 of 5), or the file object of the request server's handler fails its Close() with one of the 29 error values of xfHandlerErrs (opens served by OpenFile, and by Filewrite when FilePut is no OpenFileWriter); the handle is released by the server when the request arrives, so: that first Close returns the server's failure (cut: an error of its own), and then EVERY File method once in a PRNG order - Read x2, ReadAt x2, Write x2, WriteAt x2, ReadFrom x3, ReadFromWithConcurrency, WriteTo, Seek x5, Stat, Truncate x2, Chmod, Chown, Sync, Close, and one more Close at the end - must return os.ErrClosed (the os.File twin agrees), exactly one CLOSE request was sent and no request naming the released handle reached the peer; the status codes of failing chunks inside sequences now include 256, 257 and 0xFFFFFF01"
 	r.Rule += "; (e) transfers whose SOURCE or SINK stalls (c12_stall.go), scripted peer, per option set 16 (thorough 60) cases, each option set in a child process of its own (a goroutine left behind by a call may also panic: then the case the child was running is the failing input): ReadFromWithConcurrency(r, 0/1/2/3/5), ReadFrom(r) with r opaque / Len() / Size() / *io.LimitedReader (concurrent when UseConcurrentWrites and more than a packet is announced), WriteTo(w) x the server refuses {every chunk, the first, the last before the stall, a PRNG subset, none} of the call's chunk plan with status 4/3/8/2/255/256 (all 60 combinations in 60 consecutive cases), replies in order or permuted; the source hands out 0..4 (now and then up to 2*conc+6) whole packets, +0/+1/+mp-1 bytes, in pieces of 1/2/3/mp/mp+1 bytes or as asked, and then BLOCKS in Read until released (the sink: in Write), after which it goes on for 0/1/mp/mp+1/2mp+1/3mp more bytes, ends, or fails; start offset 0 or {1,mp,mp+1,2mp+1}; Close is called beside the stalled call (a third) or when the call has returned; for 20 ms the harness watches whether the call (or that Close) returns although the source is still blocked - then the File is closed at once, as an application may; then the source/sink is released, call and Close are waited for (hang budget), and after a settle period (the released Read has returned, 4 ms, two STAT round trips) the wire order recorded by the peer and parsed again from the raw byte stream must show exactly one CLOSE, Close == nil, and NOTHING naming the handle after the CLOSE frame (requests written before it are fine), and one more method must answer os.ErrClosed; non-trivial = the stall is reached with a refusal, a failing/ending source or a Close beside the call"
+	r.Rule += "; (f) a File method FAILS, then every other method, then Close (c12_afterfail.go), on a scripted peer that hits the k-th request of a given type after it was armed: open, offset left at 0 or made non-zero by Seek / Read / Write; the failing call m1 in {Stat, Chmod, Chown, Truncate, Sync, SetExtendedData, Seek(-1, io.SeekEnd), ReadAt, WriteAt, Read, Write, ReadFrom(opaque), ReadFrom(source with Len), ReadFromWithConcurrency, WriteTo (1 or 3 packets; chunk 0 / 1 / last of the call's plan is hit, WriteTo with concurrent reads also at its size query), Seek to a negative position, Seek with an unknown whence, Sync without the fsync@openssh.com extension (these three fail without asking the server)}; the fault: the request is REFUSED with status code {4,3,2,8,1,5,6,7,9,255,256,2^32-1}, answered with a MALFORMED reply {HANDLE / NAME / EXTENDED_REPLY frame, STATUS frame ending after the id, ATTRS frame shorter than its flags, DATA frame shorter than its length word, SSH_FX_OK where attributes are due}, or the connection is CUT instead of an answer; then AT ONCE (no call in between) the method m2 in {the above + Seek(start), Seek(current), Close}, then every other method once in a rotating order, each followed by Seek(0, io.SeekCurrent), then Close, then every method once more; quick: every ordered pair (m1, m2) once (17 x 20 = 340, the fault rotating) + every fault of every m1 once (m2 rotating), two option sets per m1 (packet sizes 1,2,3,4,7,32768, concurrency 1,2,3,64, concurrent reads/writes on and off, UseFstat rotating); thorough: every pair x every fault, six option sets per m1. Reference: the File as the property describes it (offset, content, mode bits, open/closed): the failing call returns the server's status (io.EOF / os.ErrNotExist / os.ErrPermission for codes 1/2/3; malformed reply or cut connection: an error other than os.ErrClosed), count and data of the intact prefix below the failing chunk (ReadFrom: what it took from its source), the offset advanced by that prefix (Read, Write, ReadFrom, WriteTo) or unmoved (all others), the served file = prefix stored + nothing changed outside the call's range; every later call = the same call on an os.File in that state (behind a cut connection: every call that needs the server fails and moves nothing, start/current-relative Seeks go on working, Close returns an error of its own); Close returns, exactly one CLOSE request carrying the handle (cut: at most one) and nothing naming the handle after it, every method afterwards os.ErrClosed. Every call has the hang deadline (class c12/after-failed/<m1>); a call that does not return is reported as after-failed-<last call that failed>/<call that hung>/hang; after one hang behind a method the job's other histories in which that method fails are not run, after 2 none of any job (said in a note); histories with a cut connection run in a second pass"
 	model := xfProbeModel(c)
 	xfProbeDefects(&model)
 	r.Note("client packet sizes above the server's max payload are asked on the REFILLING read paths only (Read/ReadAt of at most one packet, every read with UseConcurrentReads(false), sequential WriteTo): the concurrent readers take a short DATA reply for end of file, so with concurrent reads on and such a packet size ReadAt of several packets and WriteTo of a larger file lose data on the unchanged code - outside C01's quantifier (\"as long as the client's packet size does not exceed the server's maximum payload\"), not asked and not reported here")
@@ -1936,7 +1945,7 @@ func checkC12(c *lib.Ctx) {
 				kind = "tie"
 			}
 			what := f.What
-			if sc.Stall == nil {
+			if sc.Stall == nil && sc.After == nil {
 				what = fmt.Sprintf("%s (call #%d)", f.What, f.At)
 			}
 			res.Fail(lib.Failure{Kind: kind, Key: f.Key, What: what, Input: sc, Expected: f.Expected, Actual: f.Actual})
@@ -1977,7 +1986,7 @@ func checkC12(c *lib.Ctx) {
 		}
 		for _, raw := range inputs {
 			var sc xfSeqCase
-			if err := json.Unmarshal(raw, &sc); err != nil || (len(sc.Ops) == 0 && sc.Race == nil && sc.Pair == nil && sc.Stall == nil) {
+			if err := json.Unmarshal(raw, &sc); err != nil || (len(sc.Ops) == 0 && sc.Race == nil && sc.Pair == nil && sc.Stall == nil && sc.After == nil) {
 				continue
 			}
 			res.Case(sc.Text(), true)
@@ -1989,6 +1998,11 @@ func checkC12(c *lib.Ctx) {
 			}
 			if sc.Pair != nil {
 				fs, _ := xfRunPairs(sc, nil)
+				report(sc, fs)
+				continue
+			}
+			if sc.After != nil {
+				fs, _ := xfRunAfterFail(sc, nil)
 				report(sc, fs)
 				continue
 			}
@@ -2596,5 +2610,7 @@ func checkC12(c *lib.Ctx) {
 		})
 		r.Note("stalled transfers: %d cases reached the stall with the call under way; in %d of them the call (or a Close beside it) returned while the source/sink was still blocked; %d cases not run (budgets)", stalled, early, notRun)
 	}
+	// (f) a File method fails; then every other method; finally Close (c12_afterfail.go)
+	xfCheckAfterFail(c, res, report, rot)
 	mc.compare(c, "c12")
 }
